@@ -59,7 +59,7 @@ def run(ck):
         if not fn.file.endswith("client.cc") and not fn.file.endswith("client.h"):
             continue
         for e in fn.calls(lambda e: e.base_callee() in ("std::vector::push_back", "std::vector::emplace_back", "std::vector::insert", "std::vector::resize")
-                          and "shared_ptr<Pistache::Http::Experimental::Connection>" in (e.get("callee") or "")):
+                          and (e.get("callee") or "").startswith("std::vector<std::shared_ptr<Pistache::Http::Experimental::Connection>>::")):
             grows.append((fn, e))
     ck.require(grows, "creation of pooled connections not found")
     for fn, e in grows:
@@ -89,10 +89,28 @@ def run(ck):
             ok, why = (e.get("recv") or {}).get("t") == "this", "Connection::perform on a claimed connection"
         elif where == CLIENT + "processRequestQueue":
             rv = (e.get("recv") or {}).get("root")
-            d = [x for x in fn.events("decl") if x.get("var") == rv and strip_tmpl(x.get("icall") or "") == POOL + "pickConnection"]
-            nulltest = [b for b in fn.blocks.values() if b.term and b.term.get("k") == "if" and (b.term.get("core") or {}).get("root") == rv and b.term.get("neg")]
-            ok = bool(d) and bool(nulltest) and all(cfg.edge_dominates(fn, b.id, 1, e) for b in nulltest)
+
+            def picked_and_tested(var, at, vd=None):
+                d = [x for x in fn.events("decl") if x.get("var") == var and (vd is None or x.get("vd") == vd) and strip_tmpl(x.get("icall") or "") == POOL + "pickConnection"]
+                nulltest = [b for b in fn.blocks.values() if b.term and b.term.get("k") == "if" and (b.term.get("core") or {}).get("root") == var and b.term.get("neg")
+                            and (not d or (b.term.get("core") or {}).get("rootd") in (None, d[0].get("vd")))]
+                dom_ = cfg.dominators(fn)
+                tests = [b for b in nulltest if b.id in dom_.get(at.block, ())]
+                return bool(d) and bool(tests) and all(cfg.edge_dominates(fn, b.id, 1, at) for b in tests)
+            ok = picked_and_tested(rv, e, (e.get("recv") or {}).get("rootd"))
             why = "connection '%s' picked (claimed) on this path and tested for null" % rv
+            if not ok:
+                # the connection may travel through a local work list filled only with freshly picked connections
+                d = [x for x in fn.events("decl") if x.get("var") == rv and x.get("vd") == (e.get("recv") or {}).get("rootd")]
+                src = ((d[0].get("init") or {}).get("root")) if d else None
+                lists = [x for x in fn.events("decl") if x.get("var") and "vector" in (x.get("type") or "") and "Connection" in (x.get("type") or "")]
+                for lst in lists:
+                    adds = [c for c in fn.calls(lambda c: (c.get("recv") or {}).get("v") == lst["var"] and lib.is_stl_mutation(c) and c.get("args"))]
+                    from_list = any((r_.get("init") or {}).get("v") == lst["var"] or ("v:" + lst["var"]) in (r_.get("refs") or []) for r_ in fn.events("decl") if r_.get("var") in (src, rv, "__range1", "__range2", "__range3"))
+                    okadds = bool(adds) and all(picked_and_tested(((a_["args"][0].get("moved") or a_["args"][0]).get("v")), a_, ((a_["args"][0].get("moved") or a_["args"][0]).get("vd"))) for a_ in adds)
+                    if okadds and (from_list or src):
+                        ok = True
+                        why = "connection comes from the local list '%s', which only receives connections picked (claimed) and null-tested in this function" % lst["var"]
         ck.ob("C15-R2", "caller-of:performImpl<-%s" % where.replace(E, ""), ok, e.loc, fn, why)
     for name in ("perform", "asyncPerform"):
         for e in prog.call_sites(CONN + name):
@@ -230,6 +248,35 @@ def run(ck):
         ok = len(rel) == 1 and len(prq) == 1 and cfg.ev_dominates(d, rel[0], prq[0])
         ck.ob("C15-R3", "onDone-lambda:%s/%s" % (fn.base.replace(E, ""), e["callee"].rsplit("::", 1)[1]), ok, lf.loc, lf,
               "pool.releaseConnection(conn) then processRequestQueue()")
+
+    # ---------------- R6: no self-deadlock through the completion callbacks ----------------
+    ck.rule("C15-R6", "A lockset + call-graph reachability through the onDone callbacks (lock re-entrancy)",
+            "no call made while holding a client mutex (Transport::timeoutsLock, Client::queuesLock, ConnectionPool::connsLock) can reach — "
+            "through resolved calls, the Promise constructor's synchronous callback and the onDone lambdas — a function that acquires the "
+            "same non-recursive member mutex again: completion paths run on the reactor thread and would dead-lock it", 3)
+
+    def extra(ev):
+        if ev["k"] == "call" and ev.base_callee() == "std::function::operator()":
+            rv = ev.get("recv") or {}
+            if rv.get("v") == "onDone" or strip_tmpl(rv.get("f") or "").endswith("onDone"):
+                return [lf for _fn, _e, lf in lam_sites]
+        return []
+    nlocked = 0
+    for fn in prog.funcs.values():
+        if not fn.file.endswith("/client/client.cc") or fn.is_lambda:
+            continue
+        for d_ in fn.events("decl"):
+            g_ = lib.guard_of_decl(d_)
+            if not g_ or g_[2] != "this":
+                continue
+            mtx = g_[1]
+            nlocked += 1
+            hits = lib.reentrant_acquisitions(prog, fn, mtx, extra)
+            ck.ob("C15-R6", "%s holds %s" % (fn.base.replace(E, ""), mtx.rsplit("::", 1)[1]), not hits, d_.loc, fn,
+                  "no call under the lock can come back to it" if not hits else
+                  "the call at %s, made with %s held, reaches %s which locks it again on the same thread" % (hits[0][0].loc, mtx.rsplit("::", 1)[1], hits[0][2].func.name.replace(E, "")),
+                  path=hits[0][1] if hits else None)
+    ck.require(nlocked >= 3, "guarded regions found in client.cc: %d" % nlocked)
 
     # ---------------- R5 ----------------
     rr = lib.single(prog, "Pistache::TimerPool::Entry::registerReactor")
